@@ -32,8 +32,8 @@ ASSUMPTIONS = ['the integer algorithms of vf/props/C17.py (Machin pi, series for
                'cross-checked against release 1.3.0 at three precisions (selftest)',
                'glaisher, twinprime, mertens: reference = value on which release 1.3.0 (two precisions) and the tree at '
                '3P+300 bits agree to 2^-(P+32): consensus tier, not rigorous',
-               'twinprime is covered up to p = 300 (quick) / 1000 (thorough), mertens up to 600 / 2000: one evaluation of '
-               'twinprime at 4000 bits costs 450 s and the consensus reference needs the tree at 3P+300 bits',
+               'twinprime is covered up to p = 300 (quick) / 700 (thorough), mertens up to 600 / 1500, glaisher up to 1200 / 3000: one '
+               'evaluation of twinprime at 4000 bits costs 450 s and the consensus reference needs the tree at 3P+300 bits',
                'memo reset between requests (third pass) is emulated by setting memo_prec = -1 on the constant_memo '
                'closures found at run time; new-interpreter evaluations are real']
 LEVEL_TEXT = ('exploration: every precision 1..1200 (quick) / 1..4000 (thorough) x 5 rounding modes x 3 call routes x 3 '
@@ -43,7 +43,7 @@ LEVEL_TEXT = ('exploration: every precision 1..1200 (quick) / 1..4000 (thorough)
 LEVEL_NOTE = ('trusted base: integer series code in C17.py + exactq; consensus tier for glaisher/twinprime/mertens; '
               'precisions above P and histories not generated are not covered')
 TECHNIQUE = 'runtime reference-model monitor over exhaustive precision sweeps + history replay against fresh processes'
-SHARD_TIMEOUT = {'quick': 400, 'thorough': 1500}
+SHARD_TIMEOUT = {'quick': 600, 'thorough': 2400}
 
 CR = ['pi', 'e', 'ln2', 'ln10', 'phi', 'degree']
 ULP_OWN = ['euler', 'catalan', 'apery', 'khinchin']
@@ -51,7 +51,7 @@ ULP_CONS = ['glaisher', 'twinprime', 'mertens']
 ALL = CR + ULP_OWN + ULP_CONS
 IV_NAMES = ['pi', 'e', 'ln2', 'ln10', 'phi', 'euler', 'catalan', 'glaisher', 'khinchin', 'twinprime']
 PMAX = {'quick': 1200, 'thorough': 4000}
-PCAP = {'quick': {'twinprime': 300, 'mertens': 600}, 'thorough': {'twinprime': 1000, 'mertens': 2000}}
+PCAP = {'quick': {'twinprime': 300, 'mertens': 600}, 'thorough': {'twinprime': 700, 'mertens': 1500, 'glaisher': 3000}}
 MODES = ('n', 'f', 'c', 'd', 'u')
 
 
@@ -613,10 +613,11 @@ def check_value(rec, ref, name, p, mode, route, pas, raw, stats):
             rec.note('modes d/u on the other side (observed, not asserted)', case)
 
 
-def sweep_constant(rec, name, P, ref, passes, reset_ps, fs):
+def sweep_constant(rec, name, P, ref, passes, reset_ps, fs, budget=None):
     mp, iv = _libs()
     stats = {'refine': []}
     routes = ['call', 'pos'] + (['iv'] if name in IV_NAMES else [])
+    t_cap = time.time() + budget if budget else None
     for pas in passes:
         if pas == 'asc':
             ps = range(1, P + 1)
@@ -626,7 +627,10 @@ def sweep_constant(rec, name, P, ref, passes, reset_ps, fs):
             ps = reset_ps
         if fs and pas in ('asc', 'desc'):
             reset_memos(fs)                       # every pass starts from an empty memo
-        for p in ps:
+        for ip, p in enumerate(ps):
+            if pas == 'reset' and t_cap and ip >= 8 and time.time() > t_cap:
+                rec.note('memo-reset sample cut short by the time cap', {'c': name, 'done': ip, 'of': len(ps)})
+                break
             for route in routes:
                 modes = MODES if route == 'call' else (('n',) if route == 'pos' else ('iv',))
                 for mode in modes:
@@ -709,10 +713,10 @@ ANCHORS = ['mpmath.libmp.libelefun:pi_fixed',                                  #
            r'mpmath.libmp.libelefun:mpf_pi@v \+= 1',                           # ceiling adjustment
            'mpmath.ctx_iv:ivmpf_constant._get_mpi_']
 
-SWEEP_GROUPS = [['pi', 'e', 'ln2'], ['ln10', 'phi', 'degree'], ['euler', 'catalan', 'apery'],
+SWEEP_GROUPS = [['pi', 'e', 'ln2'], ['ln10', 'phi', 'degree'], ['euler'], ['catalan', 'apery'],
                 ['khinchin'], ['glaisher'], ['mertens'], ['twinprime']]
 CHEAP = CR + ['euler', 'catalan', 'apery']
-N_HISTORY_SHARDS = 9
+N_HISTORY_SHARDS = 8
 
 
 def shards(tier, seed):
@@ -751,7 +755,8 @@ def run_sweep(shard, rec):
                 cap = P if name != 'twinprime' else min(P, 500)
                 reset_ps = sorted(set([1, 2, 3, 24, 53, 64] + [r.randint(4, cap) for _ in range(n)]))
             passes = ['asc', 'desc'] + (['reset'] if fs else [])
-            st = sweep_constant(rec, name, P, ref, passes, reset_ps, fs)
+            st = sweep_constant(rec, name, P, ref, passes, reset_ps, fs,
+                                budget=None if name in CHEAP else 0.25 * SHARD_TIMEOUT[tier])
             rec.event('constants swept (every p in 1..P)')
             rec.note('sweep', {'c': name, 'P': P, 'seconds': round(time.time() - t0, 2), 'oracle': ref.tier})
     rec.event('values compared with the reference', rec.evals)
@@ -863,9 +868,10 @@ def run_history_shard(shard, rec):
     tier = shard['tier']
     P = PMAX[tier]
     r = G.rng(PROP, shard['seed'], shard['shard'])
-    n_hist = 42 if tier == 'quick' else 280
-    n_iso = 20 if tier == 'quick' else 320
-    n_clean = 6 if tier == 'quick' else 40
+    n_hist = 46 if tier == 'quick' else 220
+    n_iso = 20 if tier == 'quick' else 120
+    n_clean = 6 if tier == 'quick' else 30
+    t_cap = time.time() + 0.6 * SHARD_TIMEOUT[tier]
     hists = []
     for h in range(n_hist):
         pat, steps = gen_history(r, P, h + shard['idx'])
@@ -917,7 +923,13 @@ def run_history_shard(shard, rec):
     r.shuffle(pick)
     # prefer cheap sets for the isolated sample, but always include a few of every constant seen
     pick = pick[:n_iso]
-    iso_res = H.fresh_isolated('vf.props.C17:eval_probe', [sets[i] for i in pick], timeout=300)
+    iso_res = []
+    for i in pick:
+        if time.time() > t_cap:
+            rec.note('isolated interpreters cut short by the time cap', len(iso_res))
+            break
+        iso_res += H.fresh_isolated('vf.props.C17:eval_probe', [sets[i]], timeout=300)
+    pick = pick[:len(iso_res)]
     rec.event('new interpreters spawned', len(pick))
     rec.event('probe sets evaluated each in its own interpreter', len(pick))
     tm['isolated'] = round(time.time() - t0, 2); t0 = time.time()
@@ -965,6 +977,9 @@ def run_history_shard(shard, rec):
     tm['compare'] = round(time.time() - t0, 2); t0 = time.time()
     # ---- clean-state histories: history + read-back in a new interpreter, compared with the worker --------
     for hid in range(min(n_clean, len(hists))):
+        if hid >= 3 and time.time() > t_cap:
+            rec.note('clean-state histories cut short by the time cap', hid)
+            break
         pat, steps = hists[-1 - hid]
         probes = [s for s in steps if 'abort' not in s][:40]
         out = H.fresh_history('vf.props.C17:run_step', steps, 'vf.props.C17:eval_probe', probes, timeout=300)
